@@ -401,3 +401,573 @@ Proof.
   pose proof (stop_in_run _ _ _ _ HI0 Hst R1) as Hs.
   split; [exact Hs|]. apply (stopped_run _ _ _ _ (Inv_run _ _ _ _ HI0 R1) Hs R2).
 Qed.
+
+(* ---- no double fire: firing instants are strictly increasing; arguments are exact ---------------- *)
+(* B is an instant not later than now such that a sleeping, not stopped self.proc expires strictly after B *)
+Definition Guard (st : timer) (B : Q) : Prop :=
+  B <= tnow st /\
+  forall p d, nth_error (procs st) (cur st) = Some p -> ph p = PWait d -> stopped st = false -> B < expire st.
+
+Lemma cargs_step st a st' outs :
+  Inv st -> timer_act fixed st a = Some (st', outs) -> cargs st' = cargs st.
+Proof.
+  intros HI H. pose proof (act_cases _ _ _ _ HI H) as C. destruct a as [|tau|i|i cs|i|i|t].
+  - destruct C as (_ & ->). reflexivity.
+  - destruct C as (_ & p & _ & [(_ & ->)|(_ & ->)]); reflexivity.
+  - destruct C as (_ & p & _ & _ & ->). reflexivity.
+  - destruct C as (_ & _ & p & d & a0 & _ & _ & _ & _ & [(_ & _ & _ & ->)|(_ & _ & ->)]); [reflexivity|].
+    cbn. apply (fired_frame cs st).
+  - destruct C as (_ & _ & p & _ & _ & _ & [(d & _ & ->)|(_ & ->)]); reflexivity.
+  - destruct C as (_ & p & _ & _ & ->). reflexivity.
+  - destruct C as (_ & _ & _ & _ & ->). reflexivity.
+Qed.
+
+Lemma guard_step st a st' outs B :
+  Inv st -> Guard st B -> timer_act fixed st a = Some (st', outs) ->
+  (outs = [] /\ Guard st' B) \/
+  (exists a0, outs = [OFire a0] /\ cargs st = Some a0 /\ B < tnow st' /\ tnow st' == expire st /\
+              Guard st' (tnow st')).
+Proof.
+  intros HI (GB & GW) H. pose proof (act_cases _ _ _ _ HI H) as C.
+  destruct HI as (He & (a1 & Ha) & (pc & Hc & Hi0 & Hw) & Hoth).
+  destruct a as [|tau|i|i cs|i|i|t].
+  - destruct C as (-> & ->). left. split; [reflexivity|]. split; [exact GB|]. cbn. intros; discriminate.
+  - destruct C as (-> & p & Hp & [(Al & ->)|(Al & ->)]); rewrite Hc in Hp; injection Hp as <-;
+      left; (split; [reflexivity|]); (split; [exact GB|]); cbn.
+    + intros p d Hn Hd. rewrite nth_error_app2 in Hn by (rewrite length_upd; lia).
+      rewrite length_upd, Nat.sub_diag in Hn. cbn in Hn. injection Hn as <-. discriminate.
+    + intros p d Hn Hd. rewrite Hc in Hn. injection Hn as <-. unfold alive in Al. rewrite Hd in Al. discriminate.
+  - destruct C as (-> & p & Hp & Hph & ->). left. split; [reflexivity|]. split; [exact GB|]. cbn.
+    intros q d Hn Hd Hs. destruct (Nat.eq_dec i (cur st)) as [->|N].
+    + rewrite (nth_error_upd_same _ _ _ _ Hp) in Hn. injection Hn as <-. cbn in Hd.
+      apply loop_phase_wait in Hd as [L _]. eapply Qle_lt_trans; eauto.
+    + rewrite nth_error_upd_other in Hn by exact N. eapply GW; eauto.
+  - destruct C as (-> & U & p & d & a0 & Hp & Hph & Hd & Ha0 & [(Hs & -> & -> & ->)|(Hs & -> & ->)]).
+    + left. split; [reflexivity|]. split; [exact GB|]. cbn. intros; congruence.
+    + right. exists a0. split; [reflexivity|]. split; [exact Ha0|].
+      destruct (fired_frame cs st) as (F1 & F2 & F3 & F4 & F5 & F6). cbn in F1, F2, F3, F4, F5, F6.
+      set (st2 := rebase (cb_effect cs st)) in *. cbn [tnow set_procs]. rewrite F1.
+      rewrite Hc in Hp. injection Hp as <-.
+      destruct (Hw d Hph) as [_ E]. specialize (E Hs).
+      assert (NE : tnow st == expire st) by (rewrite <- Hd; exact E).
+      split; [rewrite NE; eapply GW; eauto|]. split; [exact NE|].
+      split; [cbn; rewrite F1; apply Qle_refl|]. cbn. rewrite F3.
+      intros q d' Hn Hd' _. rewrite (nth_error_upd_same _ _ _ _ Hc) in Hn. injection Hn as <-. cbn in Hd'.
+      apply loop_phase_wait in Hd' as [L _]. rewrite <- F1. exact L.
+  - destruct C as (-> & Hic & p & Hp & _ & _ & [(d & _ & ->)|(_ & ->)]); left; (split; [reflexivity|]);
+      (split; [exact GB|]); cbn; intros q d' Hn; rewrite nth_error_upd_other in Hn by exact Hic; eapply GW; eauto.
+  - destruct C as (-> & p & Hp & Hph & ->). left. split; [reflexivity|]. split; [exact GB|]. cbn.
+    intros q d Hn Hd. destruct (Nat.eq_dec i (cur st)) as [->|N].
+    + rewrite (nth_error_upd_same _ _ _ _ Hp) in Hn. injection Hn as <-. discriminate.
+    + rewrite nth_error_upd_other in Hn by exact N. eapply GW; eauto.
+  - destruct C as (-> & _ & L & _ & ->). left. split; [reflexivity|]. split.
+    + cbn. apply Qlt_le_weak. eapply Qle_lt_trans; eauto.
+    + cbn. exact GW.
+Qed.
+
+Definition before (x y : Q * list Z) : Prop := fst x < fst y.
+
+Lemma fires_sorted_run acts : forall st st' tr B a0,
+  Inv st -> Guard st B -> cargs st = Some a0 -> timer_run fixed st acts = Some (st', tr) ->
+  Forall (fun f => B < fst f /\ snd f = a0) (fires tr) /\ StronglySorted before (fires tr).
+Proof.
+  induction acts as [|a rest IH]; intros st st' tr B a0 HI HG Ha H; cbn in H.
+  - injection H as <- <-. cbn. split; constructor.
+  - destruct (timer_act fixed st a) as [[s1 o1]|] eqn:Hact; [|discriminate].
+    destruct (timer_run fixed s1 rest) as [[s2 t2]|] eqn:Hr; [|discriminate].
+    injection H as <- <-. pose proof (Inv_step _ _ _ _ HI Hact) as HI1.
+    assert (Ha1 : cargs s1 = Some a0) by (rewrite (cargs_step _ _ _ _ HI Hact); exact Ha).
+    destruct (guard_step _ _ _ _ _ HI HG Hact) as [(-> & G1)|(a2 & -> & Ha2 & Lt & _ & G1)].
+    + cbn. apply (IH _ _ _ _ _ HI1 G1 Ha1 Hr).
+    + destruct (IH _ _ _ _ _ HI1 G1 Ha1 Hr) as [F S]. cbn. split.
+      * constructor; [cbn; split; [exact Lt|congruence]|].
+        eapply Forall_impl; [|exact F]. cbn. intros f [L E]. split; [eapply Qlt_trans; eauto|exact E].
+      * constructor; [exact S|]. eapply Forall_impl; [|exact F]. intros f [L _]. exact L.
+Qed.
+
+Theorem no_double_fire t0 tau au a acts st tr l :
+  norm_args fixed a = Some l ->
+  timer_run fixed (timer0 fixed t0 tau au a) acts = Some (st, tr) ->
+  StronglySorted before (fires tr) /\ Forall (fun f => t0 < fst f /\ snd f = l) (fires tr).
+Proof.
+  intros Hl H.
+  assert (G : Guard (timer0 fixed t0 tau au a) t0).
+  { split; [cbn; apply Qle_refl|]. cbn. intros p d Hn Hd. injection Hn as <-. discriminate. }
+  destruct (fires_sorted_run acts _ _ _ t0 l (Inv_init t0 tau au a) G Hl H) as [F S].
+  split; assumption.
+Qed.
+
+(* ---- armed timers: quiet runs fire exactly at the expiry, then every timeout ---------------------- *)
+(* not stopped, self.proc alive: about to start with the expiry still ahead, or sleeping (then, by the
+   invariant, until exactly expire_time) *)
+Definition Armed (st : timer) (E : Q) : Prop :=
+  Inv st /\ stopped st = false /\ expire st == E /\ 0 < tmo st /\
+  exists p, nth_error (procs st) (cur st) = Some p /\ ((ph p = PInit /\ tnow st < E) \/ exists d, ph p = PWait d).
+
+(* self.proc has ended: nothing can re-arm the timer (restart() only re-arms a live process) *)
+Definition Spent (st : timer) : Prop := Inv st /\ cur_alive st = false.
+
+(* no stop()/restart() from anywhere *)
+Definition quiet (a : taction) : bool :=
+  match a with
+  | TStop | TRestart _ => false
+  | TProcTimeout _ (_ :: _) => false
+  | _ => true
+  end.
+
+Lemma armed_now st E : Armed st E -> tnow st <= E.
+Proof.
+  intros ((_ & _ & (pc & Hc & _ & Hw) & _) & Hs & He & _ & p & Hp & [(_ & L)|(d & Hd)]).
+  - apply Qlt_le_weak, L.
+  - rewrite Hc in Hp. injection Hp as <-. destruct (Hw d Hd) as [L E']. rewrite <- He, <- (E' Hs). exact L.
+Qed.
+
+Lemma armed_eq st E E' : E == E' -> Armed st E -> Armed st E'.
+Proof.
+  intros HE (HI & Hs & He & Ht & p & Hp & Hc). split; [exact HI|]. split; [exact Hs|].
+  split; [rewrite He; exact HE|]. split; [exact Ht|]. exists p. split; [exact Hp|].
+  destruct Hc as [(Hi & L)|Hd]; [left; split; [exact Hi|rewrite <- HE; exact L]|right; exact Hd].
+Qed.
+
+Lemma const_step st a st' outs :
+  Inv st -> timer_act fixed st a = Some (st', outs) -> cargs st' = cargs st /\ autor st' = autor st.
+Proof.
+  intros HI H. pose proof (act_cases _ _ _ _ HI H) as C. destruct a as [|tau|i|i cs|i|i|t].
+  - destruct C as (_ & ->). split; reflexivity.
+  - destruct C as (_ & p & _ & [(_ & ->)|(_ & ->)]); split; reflexivity.
+  - destruct C as (_ & p & _ & _ & ->). split; reflexivity.
+  - destruct C as (_ & _ & p & d & a0 & _ & _ & _ & _ & [(_ & _ & _ & ->)|(_ & _ & ->)]); [split; reflexivity|].
+    cbn. destruct (fired_frame cs st) as (_ & _ & _ & _ & A & B). split; assumption.
+  - destruct C as (_ & _ & p & _ & _ & _ & [(d & _ & ->)|(_ & ->)]); split; reflexivity.
+  - destruct C as (_ & p & _ & _ & ->). split; reflexivity.
+  - destruct C as (_ & _ & _ & _ & ->). split; reflexivity.
+Qed.
+
+Lemma const_run acts : forall st st' tr,
+  Inv st -> timer_run fixed st acts = Some (st', tr) -> cargs st' = cargs st /\ autor st' = autor st.
+Proof.
+  induction acts as [|a rest IH]; intros st st' tr HI H; cbn in H.
+  - injection H as <- _. split; reflexivity.
+  - destruct (timer_act fixed st a) as [[s1 o1]|] eqn:Ha; [|discriminate].
+    destruct (timer_run fixed s1 rest) as [[s2 t2]|] eqn:Hr; [|discriminate].
+    injection H as <- _. destruct (const_step _ _ _ _ HI Ha) as [A B].
+    destruct (IH _ _ _ (Inv_step _ _ _ _ HI Ha) Hr) as [A' B']. split; congruence.
+Qed.
+
+Lemma armed_step st a st' outs E :
+  Armed st E -> quiet a = true -> timer_act fixed st a = Some (st', outs) ->
+  tmo st' = tmo st /\
+  ((outs = [] /\ Armed st' E) \/
+   (exists a0, outs = [OFire a0] /\ cargs st = Some a0 /\ tnow st' == E /\
+      ((autor st = false /\ Spent st') \/ (autor st = true /\ Armed st' (E + tmo st))))).
+Proof.
+  intros HA Hq H. destruct HA as (HI & Hs & HE & Ht & pc & Hc & Hph).
+  pose proof (Inv_step _ _ _ _ HI H) as HI'. pose proof (act_cases _ _ _ _ HI H) as C.
+  assert (Hw : forall d, ph pc = PWait d -> tnow st <= d /\ d == expire st).
+  { destruct HI as (_ & _ & (p & Hp & _ & W) & _). rewrite Hc in Hp. injection Hp as <-.
+    intros d Hd. destruct (W d Hd) as [L E']. auto. }
+  destruct a as [|tau|i|i cs|i|i|t]; try discriminate.
+  - (* Initialize *)
+    destruct C as (-> & p & Hp & Hpi & ->). split; [reflexivity|]. left. split; [reflexivity|].
+    split; [exact HI'|]. cbn. split; [exact Hs|]. split; [exact HE|]. split; [exact Ht|].
+    destruct (Nat.eq_dec i (cur st)) as [->|N].
+    + rewrite Hc in Hp. injection Hp as <-. exists (set_ph (loop_phase st) pc).
+      split; [apply nth_error_upd_same; exact Hc|]. right. cbn.
+      destruct Hph as [(_ & L)|(d & Hd)]; [|congruence].
+      destruct (loop_phase_cases st) as [(_ & ->)|(G & _)]; [eauto|].
+      exfalso. rewrite HE in G. apply (Qlt_irrefl E). eapply Qle_lt_trans; eauto.
+    + exists pc. split; [rewrite nth_error_upd_other by exact N; exact Hc|exact Hph].
+  - (* Timeout of self.proc: the callback runs *)
+    destruct cs; [|discriminate].
+    destruct C as (-> & U & p & d & a0 & Hp & Hpw & Hd & Ha0 & [(Hs' & _)|(_ & -> & ->)]); [congruence|].
+    rewrite Hc in Hp. injection Hp as <-. destruct (Hw d Hpw) as [_ Ed].
+    assert (NE : tnow st == E) by (rewrite <- Hd, Ed; exact HE).
+    unfold cb_effect in *. cbn [fold_left] in *. unfold rebase in *. destruct (autor st) eqn:Hau.
+    + split; [reflexivity|]. right. exists a0. split; [reflexivity|]. split; [exact Ha0|]. split; [exact NE|].
+      right. split; [reflexivity|]. split; [exact HI'|]. cbn. split; [exact Hs|].
+      split; [rewrite NE; reflexivity|]. split; [exact Ht|].
+      exists (set_ph (loop_phase (set_expire st (tnow st + tmo st))) pc).
+      split; [apply nth_error_upd_same; exact Hc|]. right. cbn.
+      destruct (loop_phase_cases (set_expire st (tnow st + tmo st))) as [(_ & ->)|(G & _)]; [eauto|].
+      exfalso. cbn in G. lra.
+    + split; [reflexivity|]. right. exists a0. split; [reflexivity|]. split; [exact Ha0|]. split; [exact NE|].
+      left. split; [reflexivity|]. split; [exact HI'|]. unfold cur_alive. cbn.
+      rewrite (nth_error_upd_same _ _ _ _ Hc). unfold alive. cbn.
+      destruct (loop_phase_cases st) as [(L & _)|(_ & ->)]; [|reflexivity].
+      exfalso. rewrite HE, NE in L. apply (Qlt_irrefl E L).
+  - (* Interruption of an old process *)
+    destruct C as (-> & Hic & p & Hp & _ & _ & [(d & _ & ->)|(_ & ->)]); (split; [reflexivity|]); left;
+      (split; [reflexivity|]); (split; [exact HI'|]); cbn; (split; [exact Hs|]); (split; [exact HE|]);
+      (split; [exact Ht|]); exists pc; (split; [rewrite nth_error_upd_other by exact Hic; exact Hc|exact Hph]).
+  - (* Process event of an ended process *)
+    destruct C as (-> & p & Hp & Hpd & ->). split; [reflexivity|]. left. split; [reflexivity|].
+    split; [exact HI'|]. cbn. split; [exact Hs|]. split; [exact HE|]. split; [exact Ht|].
+    exists pc. split; [|exact Hph]. rewrite nth_error_upd_other; [exact Hc|].
+    intros ->. rewrite Hc in Hp. injection Hp as <-. destruct Hph as [(Hi & _)|(d & Hd)]; congruence.
+  - (* Advance *)
+    destruct C as (-> & U & L & Hall & ->). split; [reflexivity|]. left. split; [reflexivity|].
+    split; [exact HI'|]. cbn. split; [exact Hs|]. split; [exact HE|]. split; [exact Ht|].
+    exists pc. split; [exact Hc|]. destruct Hph as [(Hi & _)|Hd]; [|right; exact Hd].
+    exfalso. destruct (no_urgent_nth _ _ _ U Hc) as [N _]. auto.
+Qed.
+
+Lemma spent_step st a st' outs :
+  Spent st -> timer_act fixed st a = Some (st', outs) -> outs = [] /\ Spent st'.
+Proof.
+  intros (HI & Hd) H. pose proof (Inv_step _ _ _ _ HI H) as HI'. pose proof (act_cases _ _ _ _ HI H) as C.
+  unfold Spent, cur_alive in *. destruct (nth_error (procs st) (cur st)) as [pc|] eqn:Hc.
+  2:{ destruct HI as (_ & _ & (p & Hp & _) & _). congruence. }
+  destruct a as [|tau|i|i cs|i|i|t].
+  - destruct C as (-> & ->). cbn. rewrite Hc. auto.
+  - destruct C as (-> & p & Hp & [(Al & _)|(_ & ->)]); [congruence|]. cbn. rewrite Hc. auto.
+  - destruct C as (-> & p & Hp & Hpi & ->). cbn. split; [reflexivity|]. split; [exact HI'|].
+    rewrite nth_error_upd_other; [rewrite Hc; exact Hd|].
+    intros ->. rewrite Hc in Hp. injection Hp as <-. unfold alive in Hd. rewrite Hpi in Hd. discriminate.
+  - destruct C as (-> & _ & p & d & a0 & Hp & Hpw & _). exfalso.
+    rewrite Hc in Hp. injection Hp as <-. unfold alive in Hd. rewrite Hpw in Hd. discriminate.
+  - destruct C as (-> & Hic & p & Hp & _ & _ & [(d & _ & ->)|(_ & ->)]); cbn; (split; [reflexivity|]);
+      (split; [exact HI'|]); rewrite nth_error_upd_other by exact Hic; rewrite Hc; exact Hd.
+  - destruct C as (-> & p & Hp & Hpd & ->). cbn. split; [reflexivity|]. split; [exact HI'|].
+    destruct (Nat.eq_dec i (cur st)) as [->|N].
+    + rewrite (nth_error_upd_same _ _ _ _ Hp). reflexivity.
+    + rewrite nth_error_upd_other by exact N. rewrite Hc. exact Hd.
+  - destruct C as (-> & _ & _ & _ & ->). cbn. rewrite Hc. auto.
+Qed.
+
+Lemma spent_run acts : forall st st' tr,
+  Spent st -> timer_run fixed st acts = Some (st', tr) -> fires tr = [] /\ Spent st'.
+Proof.
+  induction acts as [|a rest IH]; intros st st' tr HS H; cbn in H.
+  - injection H as <- <-. auto.
+  - destruct (timer_act fixed st a) as [[s1 o1]|] eqn:Ha; [|discriminate].
+    destruct (timer_run fixed s1 rest) as [[s2 t2]|] eqn:Hr; [|discriminate].
+    injection H as <- <-. destruct (spent_step _ _ _ _ HS Ha) as [-> HS1].
+    destruct (IH _ _ _ HS1 Hr) as [F HS2]. cbn. auto.
+Qed.
+
+(* a one-shot timer: nothing before the expiry, the clock cannot pass the expiry without the callback, the
+   callback runs once, with the arguments, at the expiry; afterwards the timer is spent *)
+Lemma oneshot_run acts : forall st st' tr E a0,
+  Armed st E -> autor st = false -> cargs st = Some a0 -> forallb quiet acts = true ->
+  timer_run fixed st acts = Some (st', tr) ->
+  (fires tr = [] /\ Armed st' E) \/ (exists t, fires tr = [(t, a0)] /\ t == E /\ Spent st').
+Proof.
+  induction acts as [|a rest IH]; intros st st' tr E a0 HA Hau Hca Hq H; cbn in H.
+  - injection H as <- <-. left. auto.
+  - destruct (timer_act fixed st a) as [[s1 o1]|] eqn:Ha; [|discriminate].
+    destruct (timer_run fixed s1 rest) as [[s2 t2]|] eqn:Hr; [|discriminate].
+    injection H as <- <-. cbn in Hq. apply andb_true_iff in Hq as [Hqa Hqr].
+    destruct (const_step _ _ _ _ (proj1 HA) Ha) as [C1 C2].
+    destruct (armed_step _ _ _ _ _ HA Hqa Ha) as (_ & [(-> & HA1)|(a1 & -> & Ha1 & NE & [(_ & HS)|(Hau' & _)])]).
+    + cbn. apply (IH _ _ _ _ _ HA1); congruence.
+    + right. destruct (spent_run _ _ _ _ HS Hr) as [F HS2]. exists (tnow s1). cbn. rewrite F.
+      split; [congruence|]. split; [exact NE|exact HS2].
+    + congruence.
+Qed.
+
+(* firings at E, E + tau, E + 2 tau, ... *)
+Fixpoint periodic (fs : list (Q * list Z)) (E tau : Q) (a0 : list Z) : Prop :=
+  match fs with
+  | [] => True
+  | f :: rest => fst f == E /\ snd f = a0 /\ periodic rest (E + tau) tau a0
+  end.
+
+Definition nQ (n : nat) : Q := inject_Z (Z.of_nat n).
+
+Lemma nQ_S n : nQ (S n) == nQ n + 1.
+Proof. unfold nQ. rewrite Nat2Z.inj_succ. unfold Z.succ. rewrite inject_Z_plus. reflexivity. Qed.
+
+Lemma auto_run acts : forall st st' tr E a0,
+  Armed st E -> autor st = true -> cargs st = Some a0 -> forallb quiet acts = true ->
+  timer_run fixed st acts = Some (st', tr) ->
+  periodic (fires tr) E (tmo st) a0 /\ Armed st' (E + nQ (length (fires tr)) * tmo st) /\ tmo st' = tmo st.
+Proof.
+  induction acts as [|a rest IH]; intros st st' tr E a0 HA Hau Hca Hq H; cbn in H.
+  - injection H as <- <-. cbn. split; [exact I|]. split; [|reflexivity].
+    eapply armed_eq; [|exact HA]. unfold nQ. cbn. ring.
+  - destruct (timer_act fixed st a) as [[s1 o1]|] eqn:Ha; [|discriminate].
+    destruct (timer_run fixed s1 rest) as [[s2 t2]|] eqn:Hr; [|discriminate].
+    injection H as <- <-. cbn in Hq. apply andb_true_iff in Hq as [Hqa Hqr].
+    destruct (const_step _ _ _ _ (proj1 HA) Ha) as [C1 C2].
+    destruct (armed_step _ _ _ _ _ HA Hqa Ha) as (Tm & [(-> & HA1)|(a1 & -> & Ha1 & NE & [(Hau' & _)|(_ & HA1)])]).
+    + cbn. rewrite <- Tm. apply (IH _ _ _ _ _ HA1); congruence.
+    + congruence.
+    + assert (Hc1 : cargs s1 = Some a0) by congruence. assert (Hu1 : autor s1 = true) by congruence.
+      destruct (IH _ _ _ _ _ HA1 Hu1 Hc1 Hqr Hr) as (P & HA2 & Tm2). rewrite Tm in P, HA2, Tm2.
+      cbn. split; [split; [exact NE|split; [congruence|exact P]]|]. split; [|exact Tm2].
+      eapply armed_eq; [|exact HA2]. rewrite nQ_S. ring.
+Qed.
+
+Lemma periodic_nth fs : forall E tau a0 k f,
+  periodic fs E tau a0 -> nth_error fs k = Some f -> fst f == E + nQ k * tau /\ snd f = a0.
+Proof.
+  induction fs as [|x rest IH]; intros E tau a0 k f P Hk; [destruct k; discriminate|].
+  destruct P as (P1 & P2 & P3). destruct k as [|k]; cbn in Hk.
+  - injection Hk as <-. split; [rewrite P1; unfold nQ; cbn; ring|exact P2].
+  - destruct (IH _ _ _ _ _ P3 Hk) as [A B]. split; [rewrite A, nQ_S; ring|exact B].
+Qed.
+
+(* the firings of a quiet run that starts with the expiry E pending and period tau:
+   the k-th callback (k = 0, 1, ...) runs at E + k tau with the arguments; a one-shot timer fires at most once;
+   the clock does not pass the next expiry without the callback *)
+Definition fires_from (au : bool) (E tau : Q) (l : list Z) (fs : list (Q * list Z)) (tend : Q) : Prop :=
+  (forall k f, nth_error fs k = Some f -> fst f == E + nQ k * tau /\ snd f = l) /\
+  (if au then tend <= E + nQ (length fs) * tau else (length fs <= 1)%nat /\ (fs = [] -> tend <= E)).
+
+Lemma armed_quiet_run acts st st' tr E l :
+  Armed st E -> cargs st = Some l -> forallb quiet acts = true ->
+  timer_run fixed st acts = Some (st', tr) ->
+  fires_from (autor st) E (tmo st) l (fires tr) (tnow st').
+Proof.
+  intros HA Hl Hq H. destruct (autor st) eqn:Hau.
+  - destruct (auto_run _ _ _ _ _ _ HA Hau Hl Hq H) as (P & HA' & _). split.
+    + intros k f Hk. apply (periodic_nth _ _ _ _ _ _ P Hk).
+    + apply (armed_now _ _ HA').
+  - destruct (oneshot_run _ _ _ _ _ _ HA Hau Hl Hq H) as [(-> & HA')|(t & -> & Ht & _)].
+    + split; [intros [|k] f Hk; discriminate|]. cbn. split; [lia|]. intros _. apply (armed_now _ _ HA').
+    + split.
+      * intros [|k] f Hk; cbn in Hk; [|destruct k; discriminate]. injection Hk as <-. cbn.
+        split; [rewrite Ht; unfold nQ; cbn; ring|reflexivity].
+      * cbn. split; [lia|discriminate].
+Qed.
+
+(* ---- how a timer gets armed: creation, restart() by a foreign process, restart() from the callback -- *)
+Lemma armed_init t0 tau au a : 0 < tau -> Armed (timer0 fixed t0 tau au a) (t0 + tau).
+Proof.
+  intros Ht. split; [apply Inv_init|]. cbn. split; [reflexivity|]. split; [reflexivity|]. split; [exact Ht|].
+  exists {| ph := PInit; intr := 0 |}. split; [reflexivity|]. left. split; [reflexivity|]. lra.
+Qed.
+
+Lemma armed_after_restart st tau st1 outs :
+  Inv st -> stopped st = false -> cur_alive st = true -> 0 < tau ->
+  timer_act fixed st (TRestart tau) = Some (st1, outs) ->
+  outs = [] /\ Armed st1 (tnow st + tau) /\ tmo st1 = tau /\ tnow st1 = tnow st.
+Proof.
+  intros HI Hs Hal Ht H. pose proof (Inv_step _ _ _ _ HI H) as HI'. pose proof (act_cases _ _ _ _ HI H) as C.
+  destruct C as (-> & p & Hp & [(Al & ->)|(Al & ->)]).
+  - split; [reflexivity|]. cbn. split; [|split; reflexivity].
+    split; [exact HI'|]. cbn. split; [exact Hs|]. split; [reflexivity|]. split; [exact Ht|].
+    exists newp. split.
+    + rewrite nth_error_app2 by (rewrite length_upd; lia). rewrite length_upd, Nat.sub_diag. reflexivity.
+    + left. split; [reflexivity|]. lra.
+  - unfold cur_alive in Hal. rewrite Hp in Hal. congruence.
+Qed.
+
+Lemma cb_effect_snoc cs c st : cb_effect (cs ++ [c]) st = cb_call (cb_effect cs st) c.
+Proof. unfold cb_effect. rewrite fold_left_app. reflexivity. Qed.
+
+Lemma cb_effect_nostop cs : forall st, ~ In CStop cs -> stopped (cb_effect cs st) = stopped st.
+Proof.
+  induction cs as [|c t IH]; intros st H; cbn; [reflexivity|].
+  unfold cb_effect in IH. rewrite IH by (intros X; apply H; right; exact X).
+  destruct c; [exfalso; apply H; left; reflexivity|reflexivity].
+Qed.
+
+Lemma armed_after_cb_restart st i cs0 tau st1 outs :
+  Inv st -> stopped st = false -> ~ In CStop cs0 -> 0 < tau ->
+  timer_act fixed st (TProcTimeout i (cs0 ++ [CRestart tau])) = Some (st1, outs) ->
+  exists a0, outs = [OFire a0] /\ cargs st = Some a0 /\ Armed st1 (tnow st + tau) /\ tmo st1 = tau /\
+             tnow st1 = tnow st.
+Proof.
+  intros HI Hs Hns Ht H. pose proof (Inv_step _ _ _ _ HI H) as HI'. pose proof (act_cases _ _ _ _ HI H) as C.
+  destruct C as (-> & U & p & d & a0 & Hp & Hpw & Hd & Ha0 & [(Hs' & _)|(_ & -> & ->)]); [congruence|].
+  exists a0. split; [reflexivity|]. split; [exact Ha0|].
+  destruct (fired_frame (cs0 ++ [CRestart tau]) st) as (F1 & F2 & F3 & F4 & F5 & F6). cbn in F1, F2, F3, F4, F5, F6.
+  set (st2 := rebase (cb_effect (cs0 ++ [CRestart tau]) st)) in *.
+  assert (S2 : stopped st2 = false /\ tmo st2 = tau /\ expire st2 == tnow st + tau).
+  { unfold st2. rewrite cb_effect_snoc. cbn [cb_call].
+    destruct (cb_effect_frame cs0 st) as (G1 & _).
+    pose proof (cb_effect_nostop cs0 st Hns) as G2.
+    unfold rebase. destruct (autor (set_sched (cb_effect cs0 st) tau)); cbn; rewrite G1, G2, Hs;
+      split; try reflexivity; split; reflexivity. }
+  destruct S2 as (S2a & S2b & S2c).
+  cbn [tmo tnow set_procs]. split; [|split; [exact S2b|exact F1]].
+  split; [exact HI'|]. cbn. split; [exact S2a|]. split; [exact S2c|]. split; [rewrite S2b; exact Ht|].
+  rewrite F3. exists (set_ph (loop_phase st2) p). split; [apply nth_error_upd_same; exact Hp|]. right. cbn.
+  destruct (loop_phase_cases st2) as [(_ & ->)|(G & _)]; [eauto|].
+  exfalso. rewrite F1, S2c in G. lra.
+Qed.
+
+Lemma fires_from_lower au E tau l fs tend :
+  0 < tau -> fires_from au E tau l fs tend -> Forall (fun f => E <= fst f) fs.
+Proof.
+  intros Ht [Hn _]. apply Forall_forall. intros f Hin. apply In_nth_error in Hin as (k & Hk).
+  destruct (Hn k f Hk) as [A _]. rewrite A.
+  assert (0 <= nQ k) by (unfold nQ; change 0 with (inject_Z 0); rewrite <- Zle_Qle; lia).
+  nra.
+Qed.
+
+(* ---- the theorems of C19 ----------------------------------------------------------------------- *)
+Theorem fires_at_expiry t0 tau a l acts st tr :
+  0 < tau -> norm_args fixed a = Some l -> forallb quiet acts = true ->
+  timer_run fixed (timer0 fixed t0 tau false a) acts = Some (st, tr) ->
+  (fires tr = [] /\ tnow st <= t0 + tau) \/ (exists t, fires tr = [(t, l)] /\ t == t0 + tau).
+Proof.
+  intros Ht Hl Hq H.
+  destruct (oneshot_run _ _ _ _ _ _ (armed_init t0 tau false a Ht) eq_refl Hl Hq H) as [(F & HA)|(t & F & E & _)].
+  - left. split; [exact F|apply (armed_now _ _ HA)].
+  - right. eauto.
+Qed.
+
+(* once the callback of a one-shot timer ran (without restarting it), nothing re-arms the timer *)
+Theorem expired_one_shot_never_refires t0 tau a l pre post st1 tr1 st tr :
+  0 < tau -> norm_args fixed a = Some l -> forallb quiet pre = true ->
+  timer_run fixed (timer0 fixed t0 tau false a) pre = Some (st1, tr1) -> fires tr1 <> [] ->
+  timer_run fixed st1 post = Some (st, tr) -> fires tr = [].
+Proof.
+  intros Ht Hl Hq H1 Hne H2.
+  destruct (oneshot_run _ _ _ _ _ _ (armed_init t0 tau false a Ht) eq_refl Hl Hq H1) as [(F & _)|(t & _ & _ & HS)].
+  - congruence.
+  - apply (spent_run _ _ _ _ HS H2).
+Qed.
+
+Theorem auto_restart_period t0 tau a l acts st tr :
+  0 < tau -> norm_args fixed a = Some l -> forallb quiet acts = true ->
+  timer_run fixed (timer0 fixed t0 tau true a) acts = Some (st, tr) ->
+  (forall k f, nth_error (fires tr) k = Some f ->
+     fst f == t0 + tau + inject_Z (Z.of_nat k) * tau /\ snd f = l) /\
+  tnow st <= t0 + tau + inject_Z (Z.of_nat (length (fires tr))) * tau.
+Proof.
+  intros Ht Hl Hq H.
+  apply (armed_quiet_run _ _ _ _ _ _ (armed_init t0 tau true a Ht) Hl Hq H).
+Qed.
+
+Theorem restart_rebases t0 tau au a l pre st trp tau' acts st' tr :
+  norm_args fixed a = Some l ->
+  timer_run fixed (timer0 fixed t0 tau au a) pre = Some (st, trp) ->
+  stopped st = false -> cur_alive st = true -> 0 < tau' -> forallb quiet acts = true ->
+  timer_run fixed st (TRestart tau' :: acts) = Some (st', tr) ->
+  fires_from au (tnow st + tau') tau' l (fires tr) (tnow st') /\
+  Forall (fun f => tnow st + tau' <= fst f) (fires tr).
+Proof.
+  intros Hl Hp Hs Hal Ht Hq H. pose proof (Inv_run _ _ _ _ (Inv_init t0 tau au a) Hp) as HI.
+  destruct (const_run _ _ _ _ (Inv_init t0 tau au a) Hp) as [Hc Hu]. cbn in Hc, Hu.
+  cbn in H. destruct (timer_act fixed st (TRestart tau')) as [[s1 o1]|] eqn:Ha; [|discriminate].
+  destruct (timer_run fixed s1 acts) as [[s2 t2]|] eqn:Hr; [|discriminate]. injection H as <- <-.
+  destruct (armed_after_restart _ _ _ _ HI Hs Hal Ht Ha) as (-> & HA & Tm & Tn).
+  destruct (const_step _ _ _ _ HI Ha) as [C1 C2].
+  assert (Hl1 : cargs s1 = Some l) by congruence.
+  pose proof (armed_quiet_run _ _ _ _ _ _ HA Hl1 Hq Hr) as FF. rewrite C2, Hu, Tm in FF. cbn.
+  split; [exact FF|]. eapply fires_from_lower; eauto.
+Qed.
+
+Theorem restart_rebases_from_callback t0 tau au a l pre st trp i cs0 tau' acts st' tr :
+  norm_args fixed a = Some l ->
+  timer_run fixed (timer0 fixed t0 tau au a) pre = Some (st, trp) ->
+  stopped st = false -> ~ In CStop cs0 -> 0 < tau' -> forallb quiet acts = true ->
+  timer_run fixed st (TProcTimeout i (cs0 ++ [CRestart tau']) :: acts) = Some (st', tr) ->
+  exists rest, fires tr = (tnow st, l) :: rest /\
+               fires_from au (tnow st + tau') tau' l rest (tnow st') /\
+               Forall (fun f => tnow st + tau' <= fst f) rest.
+Proof.
+  intros Hl Hp Hs Hns Ht Hq H. pose proof (Inv_run _ _ _ _ (Inv_init t0 tau au a) Hp) as HI.
+  destruct (const_run _ _ _ _ (Inv_init t0 tau au a) Hp) as [Hc Hu]. cbn in Hc, Hu.
+  cbn [timer_run] in H.
+  destruct (timer_act fixed st (TProcTimeout i (cs0 ++ [CRestart tau']))) as [[s1 o1]|] eqn:Ha; [|discriminate].
+  destruct (timer_run fixed s1 acts) as [[s2 t2]|] eqn:Hr; [|discriminate]. injection H as <- <-.
+  destruct (armed_after_cb_restart _ _ _ _ _ _ HI Hs Hns Ht Ha) as (a0 & -> & Ha0 & HA & Tm & Tn).
+  destruct (const_step _ _ _ _ HI Ha) as [C1 C2].
+  assert (Hl1 : cargs s1 = Some l) by congruence.
+  pose proof (armed_quiet_run _ _ _ _ _ _ HA Hl1 Hq Hr) as FF. rewrite C2, Hu, Tm in FF.
+  exists (fires t2). cbn. rewrite Tn. split; [congruence|]. split; [exact FF|].
+  eapply fires_from_lower; eauto.
+Qed.
+
+(* for EVERY history: the callback runs only inside the Timeout step of self.proc, only when the timer is not
+   stopped, and only at the instant expire_time holds at that moment *)
+Theorem fires_only_at_expire_time t0 tau au a l pre st trp x st' outs :
+  norm_args fixed a = Some l ->
+  timer_run fixed (timer0 fixed t0 tau au a) pre = Some (st, trp) ->
+  timer_act fixed st x = Some (st', outs) -> outs <> [] ->
+  outs = [OFire l] /\ stopped st = false /\ tnow st == expire st /\ tnow st' = tnow st /\
+  exists cs, x = TProcTimeout (cur st) cs.
+Proof.
+  intros Hl Hp Ha Hne. pose proof (Inv_run _ _ _ _ (Inv_init t0 tau au a) Hp) as HI.
+  destruct (const_run _ _ _ _ (Inv_init t0 tau au a) Hp) as [Hc _]. cbn in Hc.
+  pose proof (act_cases _ _ _ _ HI Ha) as C.
+  destruct x as [|tau'|i|i cs|i|i|t]; try (destruct C as (-> & _); congruence).
+  destruct C as (-> & _ & p & d & a0 & Hn & Hpw & Hd & Ha0 & [(_ & _ & -> & _)|(Hs & -> & ->)]); [congruence|].
+  destruct HI as (_ & _ & (pc & Hcur & _ & Hw) & _). rewrite Hcur in Hn. injection Hn as <-.
+  destruct (Hw d Hpw) as [_ E]. split; [congruence|]. split; [exact Hs|].
+  split; [rewrite <- Hd; exact (E Hs)|]. split; [|eauto].
+  cbn. apply (fired_frame cs st).
+Qed.
+
+(* ---- non-vacuity: concrete admissible histories ------------------------------------------------- *)
+(* restart(6) by a foreign process at 3 on a one-shot timer(5) with the scalar argument 7 *)
+Example ex_restart_before_expiry :
+  option_map (fun r => fires (snd r))
+    (timer_run fixed (timer0 fixed 0 5 false (AScalar 7))
+       [TProcInit 0; TAdvance 3; TRestart 6; TProcInterrupt 0; TProcInit 1; TProcEnd 0; TAdvance 5; TAdvance 9;
+        TProcTimeout 1 []; TProcEnd 1; TAdvance 20])
+  = Some [(9, [7%Z])].
+Proof. vm_compute. reflexivity. Qed.
+
+(* restart(3) at the expiry instant, before the kernel processed the Timeout: the old process has an
+   interruption pending, so its Timeout step is not admissible (K1); the callback runs at 8 only *)
+Example ex_restart_at_expiry_before_timeout :
+  option_map (fun r => fires (snd r))
+    (timer_run fixed (timer0 fixed 0 5 false (AList [1%Z]))
+       [TProcInit 0; TAdvance 5; TRestart 3; TProcInterrupt 0; TProcInit 1; TAdvance 8; TProcTimeout 1 []])
+  = Some [(8, [1%Z])] /\
+  timer_run fixed (timer0 fixed 0 5 false (AList [1%Z])) [TProcInit 0; TAdvance 5; TRestart 3; TProcTimeout 0 []] = None.
+Proof. vm_compute. split; reflexivity. Qed.
+
+(* restart(3) at the expiry instant after the callback of a one-shot timer ran: no error, no second callback *)
+Example ex_restart_at_expiry_after_callback :
+  option_map (fun r => (fires (snd r), err (fst r), cur_alive (fst r)))
+    (timer_run fixed (timer0 fixed 0 5 false (AList [1%Z]))
+       [TProcInit 0; TAdvance 5; TProcTimeout 0 []; TRestart 3; TProcEnd 0; TAdvance 8; TAdvance 30])
+  = Some ([(5, [1%Z])], None, false).
+Proof. vm_compute. reflexivity. Qed.
+
+(* auto-restart, the callback restarts (period becomes 2), later stops *)
+Example ex_auto_restart_callback_calls :
+  option_map (fun r => fires (snd r))
+    (timer_run fixed (timer0 fixed 0 5 true ANone)
+       [TProcInit 0; TAdvance 5; TProcTimeout 0 [CRestart 2]; TAdvance 7; TProcTimeout 0 []; TAdvance 9;
+        TProcTimeout 0 [CStop]; TAdvance 11; TProcTimeout 0 []; TProcEnd 0; TAdvance 40])
+  = Some [(5, []); (7, []); (9, [])].
+Proof. vm_compute. reflexivity. Qed.
+
+(* two restarts in the instant of creation, Initialize of every process still pending; then stop() makes the
+   interruptions hit processes that have already ended (dropped silently) *)
+Example ex_two_restarts_at_creation :
+  option_map (fun r => fires (snd r))
+    (timer_run fixed (timer0 fixed 0 5 false ANone)
+       [TRestart 3; TRestart 4; TProcInit 0; TProcInterrupt 0; TProcInit 1; TProcInterrupt 1; TProcInit 2;
+        TAdvance 4; TProcTimeout 2 []])
+  = Some [(4, [])] /\
+  option_map (fun r => (live_count (fst r), err (fst r)))
+    (timer_run fixed (timer0 fixed 0 5 false ANone)
+       [TRestart 5; TStop; TProcInit 0; TProcInterrupt 0; TProcInit 1; TAdvance 100])
+  = Some (0%nat, None).
+Proof. vm_compute. split; reflexivity. Qed.
+
+(* the hypotheses of restart_rebases hold in a reachable state *)
+Example ex_pending_state :
+  exists st trp, timer_run fixed (timer0 fixed 0 5 true (AScalar 7)) [TProcInit 0; TAdvance 5; TProcTimeout 0 []; TAdvance 6]
+                 = Some (st, trp) /\ stopped st = false /\ cur_alive st = true /\ fires trp = [(5, [7%Z])].
+Proof. eexists. eexists. split; [vm_compute; reflexivity|]. vm_compute. auto. Qed.
+
+(* ---- the code before the three fix: commits reaches an error state ------------------------------- *)
+Lemma raises_before_fix_scalar_args :
+  exists acts st tr,
+    timer_run {| fx_wrap := false; fx_selfcb := true; fx_alive := true |}
+              (timer0 {| fx_wrap := false; fx_selfcb := true; fx_alive := true |} 0 5 false (AScalar 7)) acts = Some (st, tr)
+    /\ err st = Some ENotIterable.
+Proof. exists [TProcInit 0; TAdvance 5; TProcTimeout 0 []]. eexists. eexists. split; vm_compute; reflexivity. Qed.
+
+Lemma raises_before_fix_restart_from_callback :
+  exists acts st tr,
+    timer_run {| fx_wrap := true; fx_selfcb := false; fx_alive := true |}
+              (timer0 {| fx_wrap := true; fx_selfcb := false; fx_alive := true |} 0 5 false (AScalar 7)) acts = Some (st, tr)
+    /\ err st = Some EInterruptSelf.
+Proof. exists [TProcInit 0; TAdvance 5; TProcTimeout 0 [CRestart 2]]. eexists. eexists. split; vm_compute; reflexivity. Qed.
+
+Lemma raises_before_fix_restart_after_expiry :
+  exists acts st tr,
+    timer_run {| fx_wrap := true; fx_selfcb := true; fx_alive := false |}
+              (timer0 {| fx_wrap := true; fx_selfcb := true; fx_alive := false |} 0 5 false (AScalar 7)) acts = Some (st, tr)
+    /\ err st = Some EInterruptDead.
+Proof. exists [TProcInit 0; TAdvance 5; TProcTimeout 0 []; TRestart 3]. eexists. eexists. split; vm_compute; reflexivity. Qed.
